@@ -50,7 +50,22 @@ inline std::string gen_text(Choices &c, Ctx &ctx)
 					t.insert(pos, t.substr(pos, l));
 				break;
 			}
-			default: t.insert(pos, ext[c.pickn(NEXT)]); break;
+			default:
+				if (c.coin(12))
+				{
+					// a comment whose total length sits around the token buffer's capacities (32, 64, 128)
+					static const int caps[] = {32, 64, 128};
+					int total = c.coin(60) ? caps[c.pickn(3)] + c.irange(-4, 3) : (int)c.range(4, 140);
+					bool line = c.coin(25);
+					std::string cm = line ? "//" : "/*";
+					cm += std::string((size_t)std::max(0, total - (line ? 3 : 4)), (char)c.range('a', 'z'));
+					cm += line ? "\n" : "*/";
+					t.insert(pos, cm);
+					ctx.label("comment_near_buffer_capacity");
+				}
+				else
+					t.insert(pos, ext[c.pickn(NEXT)]);
+				break;
 			}
 		}
 		ctx.label("src_mutated");
